@@ -36,14 +36,15 @@ def file_hash(*paths, extra=''):
     return h.hexdigest()[:16]
 
 
-def _prune(prefix, keep):
-    """remove stale cached products with the same prefix"""
-    for f in glob.glob(os.path.join(BUILD, prefix + '*')):
-        if keep not in f:
-            try:
-                os.remove(f)
-            except OSError:
-                pass
+def _prune(prefix, keep, keep_n=4):
+    """remove stale cached products with the same prefix, keeping the few most recent (other trees may be in use concurrently)"""
+    files = [f for f in glob.glob(os.path.join(BUILD, prefix + '*')) if keep not in f and not f.endswith('.lock')]
+    files.sort(key=lambda f: os.path.getmtime(f) if os.path.exists(f) else 0, reverse=True)
+    for f in files[keep_n:]:
+        try:
+            os.remove(f)
+        except OSError:
+            pass
 
 
 class _Lock:
